@@ -23,6 +23,53 @@ partial def treeJson : PTree Int → Json
   | .leaf sh vs => jObj [("leaf", Json.arr #[jNats sh, jInts vs])]
   | .node tag cs => jObj [("node", Json.arr #[Json.str tag, Json.arr (cs.map treeJson).toArray])]
 
+/-- complex trees: leaves carry [re, im] pairs -/
+partial def parseCTree (j : Json) : Option (PTree GInt) :=
+  match field? j "leaf", field? j "node" with
+  | some l, _ => do
+      let a ← getArr? l
+      match a with
+      | [sh, vs] =>
+        let ps ← (← getArr? vs).mapM fun p => do
+          match ← getArr? p with
+          | [r, i] => some (⟨← getInt? r, ← getInt? i⟩ : GInt)
+          | _ => none
+        some (PTree.leaf (← natList? sh) ps)
+      | _ => none
+  | _, some n => do
+      let a ← getArr? n
+      match a with
+      | [tag, cs] => some (PTree.node (← getStr? tag) (← (← getArr? cs).mapM parseCTree))
+      | _ => none
+  | _, _ => none
+
+def gJson (g : GInt) : Json := Json.arr #[jInt g.re, jInt g.im]
+
+partial def ctreeJson : PTree GInt → Json
+  | .leaf sh vs => jObj [("leaf", Json.arr #[jNats sh, jList gJson vs])]
+  | .node tag cs => jObj [("node", Json.arr #[Json.str tag, Json.arr (cs.map ctreeJson).toArray])]
+
+def parseCOperand (j : Json) : Option (Operand GInt) :=
+  match field? j "scalar", field? j "tree" with
+  | some s, _ => match getArr? s with
+    | some [r, i] => match getInt? r, getInt? i with
+      | some a, some b => some (Operand.scalar ⟨a, b⟩)
+      | _, _ => none
+    | _ => none
+  | _, some t => (parseCTree t).map Operand.tree
+  | _, _ => none
+
+def cbinFun (name : String) : Option (GInt → GInt → GInt) :=
+  match name with
+  | "add" => some (· + ·) | "sub" => some (· - ·) | "mul" => some (· * ·)
+  | _ => none
+
+def cunFun (name : String) : Option (GInt → GInt) :=
+  match name with
+  | "neg" => some fun a => -a | "pos" => some id | "conj" => some GInt.conj
+  | "real" => some fun a => ⟨a.re, 0⟩ | "imag" => some fun a => ⟨a.im, 0⟩
+  | _ => none
+
 def parseOperand (j : Json) : Option (Operand Int) :=
   match field? j "scalar", field? j "tree" with
   | some s, _ => (getInt? s).map Operand.scalar
@@ -123,6 +170,36 @@ def handle (j : Json) : Json :=
     match (fStr? j "f").bind binFun, (field? j "lhs").bind parseOperand, (field? j "rhs").bind parseOperand with
     | some f, some l, some r => resTree (binaryOp f l r)
     | _, _, _ => jErr "bad-args"
+  | some "cbinop" =>
+    match (fStr? j "f").bind cbinFun, (field? j "lhs").bind parseCOperand, (field? j "rhs").bind parseCOperand with
+    | some f, some l, some r =>
+      match binaryOp f l r with
+      | .ok t => jObj [("tree", ctreeJson t)]
+      | .error _ => jErr "ValueError"
+    | _, _, _ => jErr "bad-args"
+  | some "cunary" =>
+    match (fStr? j "f").bind cunFun, (field? j "x").bind parseCTree with
+    | some f, some t => jObj [("tree", ctreeJson (PTree.map f t))]
+    | _, _ => jErr "bad-args"
+  | some "cvdot" =>
+    match (field? j "a").bind parseCTree, (field? j "b").bind parseCTree with
+    | some a, some b =>
+      jObj [("vdot", match vdotTree GInt.conj a b with | some v => gJson v | none => jErr "ValueError"),
+            ("sum", match sumTree a with | some v => gJson v | none => jErr "ValueError"),
+            ("norm2sq", jInt ((a.flatten.map fun z => z.re * z.re + z.im * z.im).foldl (· + ·) 0))]
+    | _, _ => jErr "bad-args"
+  | some "mean" =>
+    -- forest of integer trees -> rational mean (exact)
+    match (field? j "trees").bind getArr? with
+    | some ts =>
+      match ts.mapM parseTree with
+      | some (t :: rest) =>
+        let toR := PTree.map (fun (i : Int) => (i : Rat))
+        match meanTrees (1 / ((rest.length + 1 : Nat) : Rat)) (toR t :: rest.map toR) with
+        | some r => jObj [("flat", jRats r.flatten)]
+        | none => jErr "ValueError"
+      | _ => jErr "bad-args"
+    | none => jErr "bad-args"
   | some "unary" =>
     match (fStr? j "f").bind unFun, (field? j "x").bind parseTree with
     | some f, some t => jObj [("tree", treeJson (PTree.map f t))]
